@@ -88,6 +88,12 @@ func Harness_C12_rename_dir() {
 		vm.Assume(t != s.child)
 	}
 	vm.Assume(t != s.d && t != s.sib)
+	if !into && vm.Bool("entryOlderThanItsDirectory") {
+		// an entry that was moved into a directory created later: its row is older (comes first in the index)
+		// than the row of the directory that now holds it
+		s.v.Env.AddEntry(s.d+"/q/w", tar.TypeReg, 0, false, "")
+		s.v.Env.AddEntry(s.d+"/q", tar.TypeDir, 0, false, "")
+	}
 	onto := !into && vm.Bool("ontoSiblingDirectory")
 	if onto {
 		// the destination is an existing directory (with or without entries of its own below it)
@@ -96,17 +102,21 @@ func Harness_C12_rename_dir() {
 	before := s.liveNames()
 	// equivalent spellings of the two paths
 	src, dst := s.d, t
-	switch vm.Choice("srcSpelling", 3) {
-	case 1:
-		src = src[1:]
-	case 2:
-		src = "." + src
-	}
-	switch vm.Choice("dstSpelling", 3) {
-	case 1:
-		dst = dst[1:]
-	case 2:
-		dst = "." + dst
+	if into {
+		// (the guard against a rename into the own subtree is what depends on the spelling; renames to other places
+		// are run under every spelling by C02 and C13)
+		switch vm.Choice("srcSpelling", 3) {
+		case 1:
+			src = src[1:]
+		case 2:
+			src = "." + src
+		}
+		switch vm.Choice("dstSpelling", 3) {
+		case 1:
+			dst = dst[1:]
+		case 2:
+			dst = "." + dst
+		}
 	}
 	err := s.v.FS.Rename(src, dst)
 	if into {
